@@ -403,7 +403,7 @@ def main(chk: Check):
     # ---- which packages each atom meets: {atom index: [(pkg index, stream)]}
     plan = {i: [] for i in range(len(atoms))}
     grid_atoms = list(range(len(atoms)))
-    if not (chk.thorough or chk.fingerprint_changed):
+    if not (chk.thorough):
         grid_atoms = grid_atoms[:n_core] + rng.sample(grid_atoms[n_core:], min(30, len(grid_atoms) - n_core))
     for i in grid_atoms:
         plan[i] += [(j, "grid") for j in range(n_grid_pk)]
